@@ -40,7 +40,7 @@ C20 = {
     "objects:marking-definition": [{"k": "definition_by_type"}],
     "embedded:ExternalReference": [{"k": "at_least_one", "of": ["description", "url", "external_id"]}],
     "observables:artifact": [{"k": "mutex", "of": ["payload_bin", "url"]}, {"k": "at_least_one", "of": ["payload_bin", "url"]}, {"k": "requires", "a": "url", "b": "hashes"}],
-    "observables:network-traffic": [{"k": "at_least_one", "of": ["src_ref", "dst_ref"]}, {"k": "if_true_forbids", "a": "is_active", "b": "end"}],
+    "observables:network-traffic": [{"k": "at_least_one", "of": ["src_ref", "dst_ref"]}],     # (is_active / end: a MUST of 2.1; not certain for the 2.0 text, so no obligation -- AUDIT.md)
     "observables:email-message": [{"k": "if_true_forbids", "a": "is_multipart", "b": "body"}, {"k": "if_false_forbids", "a": "is_multipart", "b": "body_multipart"}],
     "observables:file": [{"k": "at_least_one", "of": ["hashes", "name"]}, {"k": "requires", "a": "encryption_algorithm", "b": "is_encrypted"}, {"k": "requires", "a": "decryption_key", "b": "is_encrypted"},
                          {"k": "if_false_forbids", "a": "is_encrypted", "b": "encryption_algorithm"}, {"k": "if_false_forbids", "a": "is_encrypted", "b": "decryption_key"}],
